@@ -7,10 +7,12 @@
 (* execute / queued execute / request), where the rewriter (command/sql/processor.go, design   *)
 (* in Rewrite.tla, instantiated here) may replace the non-deterministic call of a statement,   *)
 (* and is then appended to the committed log AS REWRITTEN.  A statement is                     *)
-(*   [k: "write" | "ddl" | "fail" | "query", tpl, slot, site, par, sub]                        *)
-(* where (tpl, slot, site) are a template, a clause context and a call site of Rewrite.tla's   *)
-(* site space, restricted to what the property covers (no RANDOM() in ORDER BY, no             *)
-(* RANDOMBLOB(expr)) and to write statements.                                                  *)
+(*   [k: "write" | "ddl" | "fail" | "query", tpl, slot, site, slot2, site2, par, sub]          *)
+(* where tpl is a write template of Rewrite.tla and (slot, site), (slot2, site2) are up to TWO *)
+(* call sites of that spec's site space, each in a clause context of the template -- the same  *)
+(* clause or two different ones, in either textual order, non-deterministic calls next to      *)
+(* deterministic time calls on a fixed value / a column -- restricted to what the property     *)
+(* covers (no RANDOM() in ORDER BY, no RANDOMBLOB(expr)).                                      *)
 (*                                                                                             *)
 (* Apply paths (one abstract database each):                                                   *)
 (*   live      the node that answered the request (applies in log order, at "now")             *)
@@ -28,9 +30,12 @@
 (*   RewriteAllSites       the rewriter reaches and recognises every must-rewrite call         *)
 (*   RewriteOnEndpoint[e]  the rewriter runs on endpoint e before the request is replicated    *)
 (*   SingleApplyPath       recovery replays entries with the same processor as live apply      *)
+(*   SiteIndependent       whether a call is replaced does not depend on the other calls of    *)
+(*                         the statement: the statement is re-rendered iff ANY call was        *)
+(*                         replaced (FALSE: the verdict of the last call visited decides)      *)
 EXTENDS Naturals, Sequences, FiniteSets, TLC, Json, SequencesExt
 
-CONSTANTS RewriteAllSites, RewriteOnEndpoint, SingleApplyPath,
+CONSTANTS RewriteAllSites, RewriteOnEndpoint, SingleApplyPath, SiteIndependent,
           Mode,          \* "mc": exhaustive over a small request alphabet; "gen": random programs for the replay
           MaxReq, MaxClock, MaxSnaps, MaxStmts,
           McAlphabet,    \* "small" | "full": the request alphabet of the exhaustive run
@@ -46,8 +51,8 @@ TimeFns == T1 \cup {"strftime", "timediff"}
 Fns     == {"random", "randomblob"} \cup TimeFns
 FormsOf(fn) == CASE fn = "random"     -> {"call"}
                  [] fn = "randomblob" -> {"lit", "zero", "expr"}
-                 [] fn \in T1         -> {"now", "nowuc", "implicit", "other", "expr"}
-                 [] fn = "strftime"   -> {"now", "implicit", "other"}
+                 [] fn \in T1         -> {"now", "nowuc", "implicit", "other", "expr", "col"}
+                 [] fn = "strftime"   -> {"now", "implicit", "other", "col"}
                  [] fn = "timediff"   -> {"now_other", "other_now", "now_now", "other_other"}
 ModsOf(fn, form) == IF fn \in T1 \cup {"strftime"} /\ form \in {"now", "other"}
                     THEN {"none", "plus", "som2", "rawunix"} ELSE {"none"}
@@ -78,6 +83,28 @@ Recognised(slot, s) == CASE s.fn = "random"     -> ~InOrderBy(slot)
                          [] s.fn = "strftime"   -> s.form = "now" \/ (s.form = "implicit" /\ RewriteAllSites)
                          [] s.fn = "timediff"   -> s.form # "other_other"
 ReplacedSite(slot, s) == TextHit(s) /\ Reached(slot, s) /\ Recognised(slot, s)
+\* a time value read from a COLUMN needs a table in scope: not in a VALUES list, a FROM-less (sub-)select, LIMIT / OFFSET
+NoColumn == {<<"select", "offset">>, <<"compound", "proj">>, <<"compound", "proj2">>, <<"values", "values">>, <<"insval", "values">>,
+             <<"insval2", "values2">>, <<"replace", "values">>, <<"updfrom", "subproj">>, <<"upsert", "values">>, <<"insret", "values">>,
+             <<"ctesel", "ctebody">>, <<"cteins", "ctebody">>, <<"cteupd", "ctebody">>, <<"ctedel", "ctebody">>, <<"multi", "values">>}
+ColScope(tpl, slot) == <<tpl, slot>> \notin NoColumn
+WellScoped(tpl, slot, s) == s.form = "col" => ColScope(tpl, slot)
+\* the KIND of a call: what the walker's branch for it looks at
+KindSeq == <<"random", "randomblob", "time-now", "time-omitted", "time-fixed", "time-column", "strftime-now", "strftime-fixed",
+             "timediff-now", "timediff-fixed">>
+KindOfFf(fn, form) == CASE fn = "random" -> "random"
+                        [] fn = "randomblob" /\ form # "expr" -> "randomblob"
+                        [] fn = "randomblob" /\ form = "expr" -> "randomblob-expr"
+                        [] fn \in T1 /\ form \in {"now", "nowuc"} -> "time-now"
+                        [] fn \in T1 /\ form = "implicit" -> "time-omitted"
+                        [] fn \in T1 /\ form \in {"other", "expr"} -> "time-fixed"
+                        [] fn \in T1 /\ form = "col" -> "time-column"
+                        [] fn = "strftime" /\ form \in {"now", "implicit"} -> "strftime-now"
+                        [] fn = "strftime" /\ form \in {"other", "col"} -> "strftime-fixed"
+                        [] fn = "timediff" /\ form # "other_other" -> "timediff-now"
+                        [] fn = "timediff" /\ form = "other_other" -> "timediff-fixed"
+                        [] OTHER -> "none"
+KindOf(s) == KindOfFf(s.fn, s.form)
 
 Endpoints == {"execute", "queued", "request"}
 AllEndpoints == [e \in Endpoints |-> TRUE]
@@ -91,6 +118,9 @@ Paths == {"live", "restart", "install", "recover"} \cup (IF Reduced THEN {} ELSE
 (* statements *)
 NoSite == [fn |-> "none", form |-> "none", mod |-> "none", cs |-> "lower", gap |-> "none", nest |-> "bare"]
 HasSite(st) == st.site.fn # "none"
+NSites(st) == IF st.site.fn = "none" THEN 0 ELSE IF st.site2.fn = "none" THEN 1 ELSE 2
+SiteAt(st, i) == IF i = 1 THEN st.site ELSE st.site2
+SlotAt(st, i) == IF i = 1 THEN st.slot ELSE st.slot2
 
 \* write templates of Rewrite.tla and the slots whose value reaches the database (or decides which rows change)
 WSlots == << <<"insval", "values">>, <<"insval2", "values2">>, <<"inssel", "proj">>, <<"inssel", "where">>, <<"replace", "values">>,
@@ -104,26 +134,52 @@ Covered(slot, s) == ~Excluded(slot, s)
 FfNonDet(x) == NonDetCall(MkSite(x, "lower", "none", "bare"))
 FnFormNonDet == SetToSeq({x \in FnForms : FfNonDet(x) /\ ~(x[1] = "randomblob" /\ x[2] = "expr")})   \* 'now' / random forms
 FnFormDet    == SetToSeq({x \in FnForms : ~FfNonDet(x)})                                            \* other time values
+\* two call sites of one statement: the same slot twice (one clause, the calls side by side) or two slots of the template in
+\* textual order; every ordered pair of sites is drawn for either
+WPairs == SelectSeq([k \in 1..(Len(WSlots) * Len(WSlots)) |->
+                       LET i == ((k - 1) \div Len(WSlots)) + 1
+                           j == ((k - 1) % Len(WSlots)) + 1 IN
+                       IF i <= j /\ WSlots[i][1] = WSlots[j][1] THEN <<WSlots[i][1], WSlots[i][2], WSlots[j][2]>> ELSE <<>>],
+                    LAMBDA x : x # <<>>)
+\* slots whose value is stored (the others decide which rows change)
+ValueSlot(slot) == slot \in {"values", "values2", "proj", "set", "subproj", "upsertset", "ctebody"}
+\* ... and is stored whatever the table holds (the row an UPSERT inserts always exists: its VALUES are never stored)
+Stored(tpl, slot) == ValueSlot(slot) /\ <<tpl, slot>> # <<"upsert", "values">>
 
 DdlKinds  == <<"index", "addcol", "view", "table2", "dropindex", "trigger">>
 FailKinds == <<"failprep", "failcons", "midfail">>
 ParKinds  == <<"none", "pos", "named">>
 
-W(ts, s, par) == [k |-> "write", tpl |-> ts[1], slot |-> ts[2], site |-> s, par |-> par, sub |-> "none"]
-D(sub)        == [k |-> "ddl",   tpl |-> "none", slot |-> "none", site |-> NoSite, par |-> "none", sub |-> sub]
-F(sub)        == [k |-> "fail",  tpl |-> "none", slot |-> "none", site |-> NoSite, par |-> "none", sub |-> sub]
-Q             == [k |-> "query", tpl |-> "none", slot |-> "none", site |-> NoSite, par |-> "none", sub |-> "none"]
+W2(tp, s, s2, par) == [k |-> "write", tpl |-> tp[1], slot |-> tp[2], site |-> s,
+                       slot2 |-> IF s2.fn = "none" THEN "none" ELSE tp[3], site2 |-> s2, par |-> par, sub |-> "none"]
+W(ts, s, par) == W2(<<ts[1], ts[2], "none">>, s, NoSite, par)
+Other(k, sub) == [k |-> k, tpl |-> "none", slot |-> "none", site |-> NoSite, slot2 |-> "none", site2 |-> NoSite, par |-> "none", sub |-> sub]
+D(sub)        == Other("ddl", sub)
+F(sub)        == Other("fail", sub)
+Q             == Other("query", "none")
 
-Must(st)  == st.k = "write" /\ HasSite(st) /\ MustRewrite(st.slot, st.site)
-\* what the rewriter (by design) does with the statement when it runs
-Replaced(st) == st.k = "write" /\ HasSite(st) /\ ReplacedSite(st.slot, st.site)
+HasAt(st, i)  == st.k = "write" /\ i <= NSites(st)
+MustAt(st, i) == HasAt(st, i) /\ MustRewrite(SlotAt(st, i), SiteAt(st, i))
+Must(st)      == \E i \in 1..2 : MustAt(st, i)
+\* what the rewriter (by design) does with the statement when it runs: the pre-filter looks at the whole text, the walker
+\* replaces the node of every call it reaches and recognises, and the statement is re-rendered iff a node was replaced.
+\* Sites are visited in textual order.
+ParsedSt(st)     == \E k \in 1..NSites(st) : TextHit(SiteAt(st, k))
+NodeReplaced(st, i) == HasAt(st, i) /\ ParsedSt(st) /\ Reached(SlotAt(st, i), SiteAt(st, i)) /\ Recognised(SlotAt(st, i), SiteAt(st, i))
+Rerendered(st)   == IF SiteIndependent THEN \E i \in 1..2 : NodeReplaced(st, i)
+                    ELSE NSites(st) > 0 /\ NodeReplaced(st, NSites(st))       \* the last call visited decides
+ReplacedAt(st, i) == NodeReplaced(st, i) /\ Rerendered(st)
+Replaced(st)     == \E i \in 1..2 : ReplacedAt(st, i)
 \* a call whose value differs between evaluations is still in the replicated text
-Residual(e) == e.st.k = "write" /\ HasSite(e.st) /\ CallSite(e.st.site) /\ NonDetCall(e.st.site) /\ ~e.rw
+ResidualAt(e, i) == HasAt(e.st, i) /\ CallSite(SiteAt(e.st, i)) /\ NonDetCall(SiteAt(e.st, i)) /\ ~e.rw[i]
+ResidualRnd(e)   == \E i \in 1..2 : ResidualAt(e, i) /\ SiteAt(e.st, i).fn \in {"random", "randomblob"}
+ResidualNow(e)   == \E i \in 1..2 : ResidualAt(e, i) /\ SiteAt(e.st, i).fn \notin {"random", "randomblob"}
+SiteOK(tpl, slot, s) == Covered(slot, s) /\ WellScoped(tpl, slot, s)
 
 ReqOK(r) == /\ r.ep = "queued" => ~r.tx                                  \* the queue does not carry a transaction flag
             /\ \A i \in DOMAIN r.stmts : r.stmts[i].k = "query" => r.ep = "request"
             /\ \E i \in DOMAIN r.stmts : r.stmts[i].k # "query"           \* a read-only request is not replicated at all
-            /\ \A i \in DOMAIN r.stmts : HasSite(r.stmts[i]) => Covered(r.stmts[i].slot, r.stmts[i].site)
+            /\ \A i \in DOMAIN r.stmts : \A k \in 1..NSites(r.stmts[i]) : SiteOK(r.stmts[i].tpl, SlotAt(r.stmts[i], k), SiteAt(r.stmts[i], k))
 
 -----------------------------------------------------------------------------
 (* the small alphabet of the exhaustive run *)
@@ -132,7 +188,12 @@ StPlain == W(<<"insval", "values">>, Rep("random", "call"), "none")           \*
 StGap   == W(<<"cteins", "ctebody">>, Rep("datetime", "implicit"), "pos")     \* needs RewriteAllSites
 StDet   == W(<<"update", "set">>, Rep("datetime", "other"), "named")          \* nothing to rewrite
 StStr   == W(<<"insval", "values">>, [Rep("date", "now") EXCEPT !.nest = "string"], "none")
+\* two calls in one statement: a non-deterministic call FOLLOWED by a time call on a fixed value in the same clause, and a time
+\* call on a column followed by a non-deterministic one in another clause
+StPairA == W2(<<"insval", "values", "values">>, Rep("random", "call"), Rep("date", "other"), "none")
+StPairB == W2(<<"update", "set", "where">>, Rep("strftime", "col"), Rep("julianday", "now"), "pos")
 McReqs == {[ep |-> e, tx |-> FALSE, stmts |-> <<s>>] : e \in Endpoints, s \in {StPlain, StGap}}
+          \cup {[ep |-> e, tx |-> FALSE, stmts |-> <<s>>] : e \in (IF McAlphabet = "full" THEN Endpoints ELSE {"execute"}), s \in {StPairA, StPairB}}
           \cup {[ep |-> e, tx |-> FALSE, stmts |-> <<s>>] : e \in (IF McAlphabet = "full" THEN Endpoints ELSE {"execute"}), s \in {StDet, StStr}}
           \cup {[ep |-> e, tx |-> t, stmts |-> <<StPlain, F("failcons")>>] :
                    e \in (IF McAlphabet = "full" THEN {"execute", "request"} ELSE {"request"}), t \in BOOLEAN}
@@ -150,24 +211,31 @@ GenSite(z) == LET z0 == z \div 4
                   z2 == z1 \div Len(CaseW)
                   z3 == z2 \div Len(GapW) IN
               MkSite(ffm, Pick(CaseW, z1), Pick(GapW, z2), Pick(NestW, z3))
-GenStmt(ep, z, y) ==
+\* a drawn site that the slot cannot take: a column where no table is in scope becomes a fixed value, an excluded call is dropped
+FitSite(tpl, slot, s0) == LET s == IF s0.form = "col" /\ ~ColScope(tpl, slot) THEN [s0 EXCEPT !.form = "other"] ELSE s0 IN
+                          IF s.fn # "none" /\ ~Covered(slot, s) THEN NoSite ELSE s
+GenStmt(ep, z, y, x) ==
   LET kind == z % 10
       z1 == z \div 10
-      ts == Pick(WSlots, z1)
+      two == x % 5 < 2                      \* two of five statements with a site get a second one
+      tp == IF two THEN Pick(WPairs, z1) ELSE LET ts == Pick(WSlots, z1) IN <<ts[1], ts[2], ts[2]>>
       z2 == z1 \div Len(WSlots)
       par == Pick(ParKinds, z2)
       z3 == z2 \div Len(ParKinds)
-      s0 == IF z3 % 5 = 0 THEN NoSite ELSE GenSite(y)
-      s == IF s0.fn # "none" /\ ~Covered(ts[2], s0) THEN NoSite ELSE s0 IN
+      s0 == IF z3 % 5 = 0 THEN NoSite ELSE FitSite(tp[1], tp[2], GenSite(y))
+      t0 == IF two THEN FitSite(tp[1], tp[3], GenSite(x \div 5)) ELSE NoSite
+      s == IF s0.fn = "none" THEN t0 ELSE s0                  \* a dropped first site: the second one is the only one
+      t == IF s0.fn = "none" THEN NoSite ELSE t0
+      tq == IF s0.fn = "none" /\ t0.fn # "none" THEN <<tp[1], tp[3], tp[3]>> ELSE tp IN
   CASE kind = 0 -> D(Pick(DdlKinds, z1))
     [] kind = 1 -> F(Pick(FailKinds, z1))
     [] kind = 2 /\ ep = "request" -> Q
-    [] OTHER -> W(ts, s, par)
-GenReq(zs, ys, h) ==
+    [] OTHER -> W2(tq, s, t, par)
+GenReq(zs, ys, xs, h) ==
   LET ep == Pick(<<"execute", "execute", "queued", "request", "request">>, h)
       n == ((h \div 5) % MaxStmts) + 1
       tx == ep # "queued" /\ (h \div 50) % 3 = 0 IN
-  [ep |-> ep, tx |-> tx, stmts |-> [j \in 1..n |-> GenStmt(ep, zs[j], ys[j])]]
+  [ep |-> ep, tx |-> tx, stmts |-> [j \in 1..n |-> GenStmt(ep, zs[j], ys[j], xs[j])]]
 Big == 1000000000
 ASSUME MaxStmts \in 1..3
 
@@ -183,12 +251,13 @@ VARIABLES log,       \* committed log: Seq([ep, tx, stmts: Seq([st, rw])])
 vars == <<log, clock, applied, db, started, snaps, liveAt, prog, sched>>
 
 Entry(r) == [ep |-> r.ep, tx |-> r.tx,
-             stmts |-> [i \in DOMAIN r.stmts |-> [st |-> r.stmts[i], rw |-> RewriteOnEndpoint[r.ep] /\ Replaced(r.stmts[i])]]]
+             stmts |-> [i \in DOMAIN r.stmts |-> [st |-> r.stmts[i],
+                                                    rw |-> [k \in 1..2 |-> RewriteOnEndpoint[r.ep] /\ ReplacedAt(r.stmts[i], k)]]]]
 
 Cell(i, j, e, t, p) ==
   [i |-> i, j |-> j,
-   rnd |-> IF Residual(e) /\ e.st.site.fn \in {"random", "randomblob"} THEN p ELSE "-",
-   now |-> IF Residual(e) /\ e.st.site.fn \notin {"random", "randomblob"} THEN t ELSE 0]
+   rnd |-> IF ResidualRnd(e) THEN p ELSE "-",
+   now |-> IF ResidualNow(e) THEN t ELSE 0]
 Effective(en) == IF en.tx /\ \E j \in DOMAIN en.stmts : en.stmts[j].st.k = "fail" THEN {}
                  ELSE {j \in DOMAIN en.stmts : en.stmts[j].st.k \in {"write", "ddl"}}
 RECURSIVE Cells(_, _, _, _, _)
@@ -273,7 +342,8 @@ AdvanceClock == /\ G /\ clock < MaxClock
 SubmitAny == IF Mode = "mc" THEN \E r \in McReqs : Submit(r, McEntry[r])
              ELSE \E zs \in {<<RandomElement(0..Big), RandomElement(0..Big), RandomElement(0..Big)>>} :
                   \E ys \in {<<RandomElement(0..Big), RandomElement(0..Big), RandomElement(0..Big)>>} :
-                  \E h \in {RandomElement(0..Big)} : LET r == GenReq(zs, ys, h) IN Submit(r, Entry(r))
+                  \E xs \in {<<RandomElement(0..Big), RandomElement(0..Big), RandomElement(0..Big)>>} :
+                  \E h \in {RandomElement(0..Big)} : LET r == GenReq(zs, ys, xs, h) IN Submit(r, Entry(r))
 
 Next == \/ SubmitAny
         \/ \E p \in Paths : ApplyLive(p)
@@ -290,15 +360,19 @@ LiveDB(i) == IF i = 0 THEN <<>> ELSE liveAt[i]
 Converge == /\ \A p \in Paths : (started[p] /\ applied[p] <= Len(liveAt)) => db[p] = LiveDB(applied[p])
             /\ \A p, q \in Paths : (started[p] /\ started[q] /\ applied[p] = applied[q]) => db[p] = db[q]
 (* "a statement's effect is a function of its replicated text": nothing non-deterministic is left in the log *)
-LogDeterministic == \A i \in DOMAIN log : \A j \in DOMAIN log[i].stmts : ~Residual(log[i].stmts[j])
-(* the rewrite is applied exactly where the property demands it *)
-RewrittenIffMust == \A i \in DOMAIN log : \A j \in DOMAIN log[i].stmts : log[i].stmts[j].rw <=> Must(log[i].stmts[j].st)
+LogDeterministic == \A i \in DOMAIN log : \A j \in DOMAIN log[i].stmts : \A k \in 1..2 : ~ResidualAt(log[i].stmts[j], k)
+(* the rewrite is applied exactly where the property demands it: at EVERY must-rewrite call, whatever the other calls are *)
+RewrittenIffMust == \A i \in DOMAIN log : \A j \in DOMAIN log[i].stmts : \A k \in 1..2 :
+                       log[i].stmts[j].rw[k] <=> MustAt(log[i].stmts[j].st, k)
 
 McView == <<log, clock, applied, db, started, snaps, liveAt>>
 
 StmtJson(st) == [k |-> st.k, tpl |-> st.tpl, slot |-> st.slot, fn |-> st.site.fn, form |-> st.site.form, mod |-> st.site.mod,
                  cs |-> st.site.cs, gap |-> st.site.gap, nest |-> st.site.nest, par |-> st.par, sub |-> st.sub,
-                 must |-> Must(st), design |-> Replaced(st)]
+                 must |-> MustAt(st, 1), design |-> ReplacedAt(st, 1), kind |-> KindOf(st.site),
+                 slot2 |-> st.slot2, fn2 |-> st.site2.fn, form2 |-> st.site2.form, mod2 |-> st.site2.mod,
+                 cs2 |-> st.site2.cs, gap2 |-> st.site2.gap, nest2 |-> st.site2.nest,
+                 must2 |-> MustAt(st, 2), design2 |-> ReplacedAt(st, 2), kind2 |-> KindOf(st.site2)]
 Emit == (Mode = "gen" /\ Done) =>
           PrintT(<<"@@", ToJson([prog |-> [i \in DOMAIN prog |-> [ep |-> prog[i].ep, tx |-> prog[i].tx,
                                                                    stmts |-> [j \in DOMAIN prog[i].stmts |-> StmtJson(prog[i].stmts[j])]]],
